@@ -49,6 +49,7 @@ var c05Corpus = []string{
 var c05Lambdas = []string{
 	"\"a\" / \"b\" > 0", "\"a\" % \"b\" == 0", "strSubstring(\"s\", 2, 1) == 'x'", "strSubstring(\"s\", 0, 100) == 'x'", "\"v\" > 5",
 	"int(\"f\") / \"b\" > 1", "strLength(\"s\") / \"b\" > 1", "duration(\"a\", 1s) / \"b\" > 1s", "abs(\"a\") % \"b\" == 1", "strIndex(\"s\", 'z') % \"b\" == 0",
+	"strSubstring(\"s\", 0, 60) == 'x'", "strSubstring(\"s\", 30, 45) =~ /x/", "strLength(\"s\") > 3 AND strSubstring(\"s\", 1, strLength(\"s\")) != ''",
 	"strSubstring(\"s\", 0, 1, 2, 3) == 'x'", "abs(\"a\", 1, 2, 3, 4, 5) > 0", "if(\"a\" > 1, 1, 2, 3, 4, 5, 6) > 0",
 	"\"missing\" > 1", "regexReplace(/a/, \"s\", 'b') == 'x'", "\"a\" * 9223372036854775807 > 0", "float(\"s\") > 1.0", "sigma(\"f\") > 1.0 OR \"a\" / \"b\" == 1",
 }
@@ -62,10 +63,10 @@ func c05Gen(c *Ctx) *c05Scenario {
 		sc.Script = c05Corpus[g.Intn(len(c05Corpus))]
 		sc.Doc = fmt.Sprintf("%d:%d:%d", g.Intn(8), g.Intn(1000), g.Intn(12))
 	case "vars":
-		sc.Script = "var x = 1\nvar l = [1, 2]\nvar d = 1s\nvar f = lambda: \"v\" > 1\nstream\n    |from()\n        .measurement('m')\n    |where(f)\n    |log()\n"
+		sc.Script = "var x = 1\nvar l = ['a', 'b']\nvar d = 1s\nvar fl = 1.5\nvar s = 'str'\nvar f = lambda: \"v\" > x AND \"w\" < fl AND \"h\" != s AND \"t\" > d\nstream\n    |from()\n        .measurement('m')\n        .groupBy(l)\n    |where(f)\n    |window()\n        .period(d)\n        .every(d)\n    |log()\n"
 		docs := []string{
 			`{"x":{"type":"int","value":2}}`, `{"x":{"type":"int","value":"2"}}`, `{"x":{"type":5,"value":2}}`, `{"x":{"value":2}}`, `{"x":5}`, `{"x":null}`,
-			`{"l":{"type":"list","value":[{"type":"int","value":1}]}}`, `{"l":{"type":"list","value":[{"type":5,"value":1}]}}`, `{"l":{"type":"list","value":[{"value":1}]}}`,
+			`{"l":{"type":"list","value":[{"type":"string","value":"h"}]}}`, `{"l":{"type":"list","value":[{"type":"int","value":1}]}}`, `{"l":{"type":"list","value":[{"type":"star","value":""}]}}`, `{"l":{"type":"list","value":[{"type":5,"value":1}]}}`, `{"l":{"type":"list","value":[{"value":1}]}}`,
 			`{"l":{"type":"list","value":[{"type":"int"}]}}`, `{"l":{"type":"list","value":[1,2]}}`, `{"l":{"type":"list","value":{"type":"int","value":1}}}`,
 			`{"l":{"type":"list","value":[{"type":null,"value":1}]}}`, `{"l":{"type":"list","value":[{"type":"list","value":[{"type":"star","value":""}]}]}}`,
 			`{"d":{"type":"duration","value":true}}`, `{"d":{"type":"duration","value":"1x"}}`, `{"d":{"type":"duration","value":9223372036854775808}}`, `{"d":{"type":"duration","value":1.5}}`,
@@ -148,7 +149,7 @@ func c05Gen(c *Ctx) *c05Scenario {
 		default:
 			sc.Script = fmt.Sprintf("stream\n    |from().measurement('m')\n    |eval(lambda: \"a\" - \"a\").as('b').keep()\n    |where(lambda: %s)\n    |log().prefix('A')\n", sc.Lambda)
 		}
-		sc.Bad = []string{"b=0i", "a=-9223372036854775808i,b=-1i", "s=\"\"", "a=\"str\",b=\"str\"", "f=0,b=0i", "b=0", "a=1i"}[g.Intn(7)]
+		sc.Bad = []string{"b=0i", "a=-9223372036854775808i,b=-1i", "s=\"\"", "a=\"str\",b=\"str\"", "f=0,b=0i", "b=0", "a=1i", "s=\"" + strings.Repeat("日", 40) + "\"", "s=\"" + strings.Repeat("é", 33) + "x\""}[g.Intn(9)]
 		good := "m a=6i,b=3i,f=2.5,s=\"abcdef\",v=7.0"
 		sc.Lines = []string{good + " 1000000000", "m " + c05Bad(sc.Bad) + " 2000000000", good + " 3000000000", "m " + c05Bad(sc.Bad) + " 3000000000", good + " 4000000000"}
 	default:
@@ -296,7 +297,7 @@ func (s *c05Socket) hostile() {
 			s.toServer.Close()
 			return
 		case "begin-huge":
-			write(&agent.Response{Message: &agent.Response_Begin{Begin: &agent.BeginBatch{Name: "m", Size: int64(1) << []uint{33, 40, 62}[simrt.Choose(3)]}}})
+			write(&agent.Response{Message: &agent.Response_Begin{Begin: &agent.BeginBatch{Name: "m", Size: []int64{1 << 33, 1 << 40, 1 << 62, -1, -1 << 40, -9223372036854775808}[simrt.Choose(6)]}}})
 			write(&agent.Response{Message: &agent.Response_End{End: &agent.EndBatch{Name: "m"}}})
 		case "empty":
 			write(&agent.Response{})
@@ -445,9 +446,29 @@ func runC05(c *Ctx) Verdict {
 			body := fmt.Sprintf(`{"id":"V","type":"stream","dbrps":[{"db":"db","rp":"rp"}],"script":%q,"vars":%s}`, sc.Script, sc.Doc)
 			done := simrt.Expect("task definition with vars returns", 2_000_000, time.Hour)
 			code, _ := d.Do("POST", "/kapacitor/v1/tasks", body)
-			done()
 			if code >= 300 {
 				defineErr = fmt.Errorf("HTTP %d", code)
+			}
+			// the same script as a template, read back (its vars are rendered), instantiated with the document, read back
+			var codes []int
+			do := func(method, path, body string) {
+				code, rb := d.Do(method, path, body)
+				codes = append(codes, code)
+				if len(codes) == 1 && code >= 300 {
+					sc.Lambda = truncateStr(rb, 300)
+				}
+			}
+			do("POST", "/kapacitor/v1/templates", fmt.Sprintf(`{"id":"TV","type":"stream","script":%q}`, sc.Script))
+			do("GET", "/kapacitor/v1/templates/TV", "")
+			do("GET", "/kapacitor/v1/templates", "")
+			do("POST", "/kapacitor/v1/tasks", fmt.Sprintf(`{"id":"VT","template-id":"TV","dbrps":[{"db":"db","rp":"rp"}],"vars":%s}`, sc.Doc))
+			do("GET", "/kapacitor/v1/tasks/VT", "")
+			do("GET", "/kapacitor/v1/tasks/V?dot-view=labels&script-format=raw", "")
+			do("PATCH", "/kapacitor/v1/templates/TV", fmt.Sprintf(`{"script":%q}`, sc.Script))
+			done()
+			sc.Peer = fmt.Sprint("statuses ", code, codes)
+			if codes[0] >= 300 {
+				verdict = Fail("harness/setup", "the fixed script is not accepted as a template: %d %s", codes[0], sc.Lambda)
 			}
 			return
 		}
@@ -585,7 +606,7 @@ func init() {
 	Register(&Prop{
 		ID:  "C05",
 		Run: runC05,
-		Rule: "case = one of five modes. json: the pipeline of a corpus script serialised to JSON, one seeded textual mutation (node type changed or unknown, value of another JSON kind, truncation, dropped key, node ids, edges), offered to Pipeline.Unmarshal; vars: a task definition with one of 30 well- and ill-formed vars documents POSTed to the real task_store handler; define: a corpus script (6 scripts covering most node kinds) with 1-3 seeded byte-level mutations (truncate, delete, duplicate, rotate, multi-byte rune, comment or comment continuation lines after '/', stray tokens, property without parentheses, random byte, dropped parentheses, 4-7 extra arguments) offered to ast.Parse, tick.Format, TaskMaster.NewTask and NewTemplate inside a world; runtime: a running task with one of 18 lambdas in where/alert/stateCount/stateDuration/from/eval/derivative fed good, bad (zero/overflowing divisors, wrong types, empty strings, missing fields), good points next to a bystander task; peer: a task with a UDF node on the real UDFSocket/udf.Server over simulated pipes against an echo agent or one of 10 misbehaving peers (a batch announcing 2^33..2^62 points, garbage, wrong response types, oversized length prefix, half a frame then close, empty message, end without begin, close after info/init, silence, a duration field reaching the UDF); " +
+		Rule: "case = one of five modes. json: the pipeline of a corpus script serialised to JSON, one seeded textual mutation (node type changed or unknown, value of another JSON kind, truncation, dropped key, node ids, edges), offered to Pipeline.Unmarshal; vars: a task definition with one of 30 well- and ill-formed vars documents POSTed to the real task_store handler, then the same script as a template (created, read back with its vars rendered, instantiated with the document, updated); define: a corpus script (6 scripts covering most node kinds) with 1-3 seeded byte-level mutations (truncate, delete, duplicate, rotate, multi-byte rune, comment or comment continuation lines after '/', stray tokens, property without parentheses, random byte, dropped parentheses, 4-7 extra arguments) offered to ast.Parse, tick.Format, TaskMaster.NewTask and NewTemplate inside a world; runtime: a running task with one of 18 lambdas in where/alert/stateCount/stateDuration/from/eval/derivative fed good, bad (zero/overflowing divisors, wrong types, empty strings, strings of 33-40 multi-byte characters, missing fields), good points next to a bystander task; peer: a task with a UDF node on the real UDFSocket/udf.Server over simulated pipes against an echo agent or one of 10 misbehaving peers (a batch announcing 2^33..2^62 or a negative number of points, garbage, wrong response types, oversized length prefix, half a frame then close, empty message, end without begin, close after info/init, silence, a duration field reaching the UDF); " +
 			"non-trivial = the task was defined (runtime/peer) or any define case; distinct = distinct (scenario, interleaving signature) pairs",
 		Real:        []string{"tick/ast lexer goroutine + parser, tick.Format, tick evaluator, pipeline.CreatePipeline/CreateTemplatePipeline, TaskMaster.NewTask/NewTemplate", "node.start recover path, WhereNode, AlertNode, StateTracking nodes, FromNode, EvalNode, DerivativeNode, tick/stateful evaluator and functions", "UDFNode, UDFSocket, udf.Server, udf/agent framing", "TaskMaster ingest/fork, httpd write endpoint"},
 		Stub:        []string{"UDFService on the existing seam: real UDFSocket over SimPipes, in-process echo agent or scripted hostile peer", "recording sinks"},
